@@ -40,7 +40,7 @@ struct collect_find { uint8_t* begin_; uint8_t* end_; uint8_t* current_; };
 /* all_services_by_group( start, end, iterator, value_filter( value begin, value end ) ) = services_by_group< .. > constructed (unit range of C03.py), details::for_< services >::each( it ), result.
    SUMMARY of the step contracts (C03.py: sbg_each offers each in-range service to the filter and reports a match to the collector; cf_call writes one handle pair of 4 octets iff 4 octets of
    room are left and returns whether it did; found_ is the disjunction of those results), by induction over the list of services: the collector stays within its buffer, advances by whole
-   handle pairs, and the result says whether anything was written. Assumed here, each step is machine checked there. */
+   handle pairs, and the result says whether anything was written. Proved in unit group_iteration below (real bodies, for_<>::each as a loop with a loop contract); the handler unit uses it as the callee's contract. */
 size_t W_groups;   /* the number of handle pairs written */
 bool all_services_by_group(uint16_t starting_handle, uint16_t ending_handle, struct collect_find* iterator, const uint8_t* value_begin, const uint8_t* value_end)
 __CPROVER_requires(__CPROVER_rw_ok(iterator, sizeof(*iterator)) && iterator->current_ == iterator->begin_ && __CPROVER_same_object(iterator->begin_, iterator->end_) && iterator->begin_ <= iterator->end_
@@ -73,7 +73,7 @@ __CPROVER_assigns(*out_size, __CPROVER_object_upto(output, W_out_size), W_groups
 /* ================= Read By Group Type: details::for_< services >::each( collect_primary_services( begin, end, ... ) ).
    SUMMARY of the step contracts (C03.py: cps_each appends one entry - first handle, last handle, UUID: 6 or 20 octets - per in-range primary service of the response's UUID size while
    it fits, read_primary_service_response writes it; the constructor / first entry fix the entry size in the octet in front of the data): the output pointer advances by whole entries
-   within the buffer, and the entry size octet is written when there is at least one. */
+   within the buffer, and the entry size octet is written when there is at least one. Proved in unit group_iteration_rbgt below. */
 size_t W_entries; bool W_128;
 void for_each_collect_primary_services(uint8_t** begin, uint8_t* end, uint16_t starting_handle, uint16_t ending_handle, uint8_t* attribute_data_size)
 __CPROVER_requires(__CPROVER_rw_ok(begin, sizeof(*begin)) && __CPROVER_same_object(*begin, end) && *begin <= end && attribute_data_size == *begin - 1 && __CPROVER_same_object(attribute_data_size, end) && starting_handle != 0 && starting_handle <= ending_handle)
@@ -101,3 +101,169 @@ void h_handle_read_by_group_type_request_(void) { H_SETUP; handle_read_by_group_
 UNIT = dict(name='group_handlers', extracts=EX, code=CODE, object_bits=10, extra_loops=-1, defines=['MTU_MAX=300', 'N_MAX=4'], timeout=900,
             enforce=['handle_find_by_type_value_request_', 'handle_read_by_group_type_request_'],
             replace=['all_services_by_group', 'for_each_collect_primary_services', 'check_size_and_handle_range_', 'error_response5_', 'error_response4_', 'handle_by_index', 'first_index_by_handle'])
+
+# ------------------------------------------------------------------ the induction behind the summary of Find By Type Value: services_by_group::each (real body) in a loop over a symbolic list of services
+from common import BITS_EXTRACTS, BITS_CODE
+_c03 = _load('C03')
+IT_EX = dict(BITS_EXTRACTS,
+    inv_index=_c03.EX['inv_index'], cf_call=dict(_c03.EX['cf_call'], rules=_c03.R + [(r'^\{', '{ { size_t bt_o = __CPROVER_POINTER_OFFSET(self->current_); BT_GHOST_REBIND(self->current_, G_buf + bt_o); }', 1)]),
+    sbg_each=_c03.EX['sbg_each'], sbg_ctor=_c03.EX['sbg_ctor'],
+    asbg=srv_fn(r'bool ' + SQ + r'all_services_by_group\( std::uint16_t starting_handle, std::uint16_t ending_handle, Iterator& iterator, const Filter& filter \)', tmpl=TS + r'template < class Iterator, class Filter >\s*',
+        pre=[(r'details::services_by_group< Iterator, Filter, services, server< Options\.\.\.  > > service_iterator\( starting_handle, ending_handle, iterator, filter, result \);',
+              'struct sbg service_iterator; sbg_ctor( &service_iterator, starting_handle, ending_handle, iterator, filter, &result );', 1),
+             (r'details::for_< services >::each\( service_iterator \);', 'for_each_service( &service_iterator );', 1)], rules=[]),
+)
+IT_CODE = BITS_CODE + r'''
+#define invalid_attribute_index ((size_t)({{inv_index}}))
+struct attribute { uint16_t uuid; int access_id; };
+#ifndef N_MAX
+#define N_MAX 16
+#endif
+#define S_MAX 5
+#define BUF_MAX 24
+/* the declared data base: N attributes with increasing handles; S services, service k = attributes G_sidx[k] .. G_sidx[k] + G_svcs[k].number_of_attributes - 1, one behind the other */
+size_t G_N; uint16_t G_H[N_MAX]; struct attribute G_attr[N_MAX]; bool G_match[N_MAX];   /* G_match[i]: the filter's verdict for the service declared at attribute i (value_filter: C03.py) */
+struct service { size_t number_of_attributes; bool is_128bit; };
+size_t G_ns; struct service G_svcs[S_MAX]; size_t G_sidx[S_MAX + 1];
+#define TABLE_OK (G_N >= 1 && G_N <= N_MAX)
+#define CNT_OK(i) (G_svcs[i].number_of_attributes >= 1 && G_svcs[i].number_of_attributes <= N_MAX && G_sidx[i] <= N_MAX)
+#define SVCS_OK (G_ns >= 1 && G_ns <= S_MAX && G_sidx[0] == 0 && G_sidx[G_ns] == G_N)
+static inline const struct attribute* attribute_at(size_t i) { __CPROVER_assert(i < G_N, "attribute_at: index in range"); return &G_attr[i]; }
+static inline uint16_t handle_by_index(size_t i) { return i < G_N ? G_H[i] : 0; }
+size_t first_index_by_handle(uint16_t handle) __CPROVER_ensures(__CPROVER_return_value == invalid_attribute_index || __CPROVER_return_value < G_N) __CPROVER_assigns();
+struct value_filter { const uint8_t* begin_; const uint8_t* end_; int server_; };
+static inline bool vf_call(const struct value_filter* f, size_t index, const struct attribute* attr) { return index < N_MAX && G_match[index]; }
+/* the collector and its buffer (the response behind the opcode) */
+struct collect_find { uint8_t* begin_; uint8_t* end_; uint8_t* current_; };
+uint8_t G_buf[BUF_MAX]; size_t G_room;
+#define IT_OK(it) (G_room <= BUF_MAX && __CPROVER_pointer_equals((it)->begin_, &G_buf[0]) && __CPROVER_pointer_equals((it)->end_, &G_buf[0] + G_room) \
+    && __CPROVER_same_object((it)->current_, G_buf) && __CPROVER_POINTER_OFFSET((it)->current_) <= G_room && __CPROVER_POINTER_OFFSET((it)->current_) % 4 == 0)
+/* the same without pointer predicates (loop invariants must be free of side effects) */
+#define IT_INV(it) (G_room <= BUF_MAX && (it)->begin_ == &G_buf[0] && (it)->end_ == &G_buf[0] + G_room \
+    && __CPROVER_same_object((it)->current_, G_buf) && __CPROVER_POINTER_OFFSET((it)->current_) <= G_room && __CPROVER_POINTER_OFFSET((it)->current_) % 4 == 0)
+#define USED(it) __CPROVER_POINTER_OFFSET((it)->current_)
+#define USED_OLD(it) __CPROVER_POINTER_OFFSET(__CPROVER_old((it)->current_))
+bool cf_call(struct collect_find* self, uint16_t start_handle, uint16_t end_handle, const struct attribute* attr)
+__CPROVER_requires(__CPROVER_rw_ok(self, sizeof(*self)) && IT_OK(self))
+__CPROVER_ensures(IT_OK(self) && __CPROVER_return_value == (G_room - USED_OLD(self) >= 4) && USED(self) == USED_OLD(self) + (__CPROVER_return_value ? 4 : 0))
+__CPROVER_assigns(self->current_, __CPROVER_object_whole(G_buf))
+{{cf_call}}
+struct sbg { size_t starting_index_; uint16_t ending_handle_; size_t index_; struct collect_find* iterator_; const struct value_filter* filter_; bool* found_; };
+void sbg_ctor(struct sbg* self, uint16_t starting_handle, uint16_t ending_handle, struct collect_find* iterator, const struct value_filter* filter, bool* found)
+{{sbg_ctor}}
+/* one step: the walk moves on by the service's attributes; a service in range that the filter accepts is handed to the collector, 'found' records whether the collector ever took one */
+#define F_OK(f) (__CPROVER_rw_ok(f, sizeof(struct sbg)) && __CPROVER_rw_ok((f)->iterator_, sizeof(struct collect_find)) && IT_OK((f)->iterator_) && __CPROVER_rw_ok((f)->found_, sizeof(bool)))
+void sbg_each(struct sbg* self, const struct service* service)
+__CPROVER_requires(TABLE_OK && F_OK(self) && __CPROVER_r_ok(service, sizeof(*service)) && service->number_of_attributes >= 1 && self->index_ < G_N && self->index_ + service->number_of_attributes <= G_N)
+__CPROVER_ensures(self->index_ == __CPROVER_old(self->index_) + service->number_of_attributes && IT_OK(self->iterator_)
+    && (USED(self->iterator_) == USED_OLD(self->iterator_) || USED(self->iterator_) == USED_OLD(self->iterator_) + 4)
+    && *self->found_ == (__CPROVER_old(*self->found_) || USED(self->iterator_) != USED_OLD(self->iterator_)))
+__CPROVER_assigns(self->index_, *self->found_, self->iterator_->current_, __CPROVER_object_whole(G_buf))
+{{sbg_each}}
+/* details::for_< services >::each( f ): f.each< Service >() once per declared service, in declaration order - the one thing taken from the type level (as a loop over the symbolic list) */
+void for_each_service(struct sbg* f)
+__CPROVER_requires(TABLE_OK && SVCS_OK && F_OK(f) && f->index_ == 0 && USED(f->iterator_) == 0 && !*f->found_
+    && G_sidx[1] == G_sidx[0] + G_svcs[0].number_of_attributes && (G_ns < 2 || G_sidx[2] == G_sidx[1] + G_svcs[1].number_of_attributes) && (G_ns < 3 || G_sidx[3] == G_sidx[2] + G_svcs[2].number_of_attributes)
+    && (G_ns < 4 || G_sidx[4] == G_sidx[3] + G_svcs[3].number_of_attributes) && (G_ns < 5 || G_sidx[5] == G_sidx[4] + G_svcs[4].number_of_attributes)
+    && CNT_OK(0) && CNT_OK(1) && CNT_OK(2) && CNT_OK(3) && CNT_OK(4))
+__CPROVER_ensures(IT_OK(f->iterator_) && *f->found_ == (USED(f->iterator_) != 0))
+__CPROVER_assigns(f->index_, *f->found_, f->iterator_->current_, __CPROVER_object_whole(G_buf))
+{
+    for ( size_t k = 0; k < G_ns; ++k )
+        __CPROVER_assigns(k, f->index_, *f->found_, f->iterator_->current_, __CPROVER_object_whole(G_buf))
+        __CPROVER_loop_invariant(k <= G_ns && f->index_ == G_sidx[k] && IT_INV(f->iterator_) && *f->found_ == (USED(f->iterator_) != 0))
+        __CPROVER_decreases(G_ns - k)
+    {
+        sbg_each( f, &G_svcs[k] );
+    }
+}
+/* all_services_by_group (real body): the SUMMARY the handler unit relies on */
+bool all_services_by_group(uint16_t starting_handle, uint16_t ending_handle, struct collect_find* iterator, const struct value_filter* filter)
+__CPROVER_requires(TABLE_OK && SVCS_OK && __CPROVER_rw_ok(iterator, sizeof(*iterator)) && IT_OK(iterator) && USED(iterator) == 0
+    && G_sidx[1] == G_sidx[0] + G_svcs[0].number_of_attributes && (G_ns < 2 || G_sidx[2] == G_sidx[1] + G_svcs[1].number_of_attributes) && (G_ns < 3 || G_sidx[3] == G_sidx[2] + G_svcs[2].number_of_attributes)
+    && (G_ns < 4 || G_sidx[4] == G_sidx[3] + G_svcs[3].number_of_attributes) && (G_ns < 5 || G_sidx[5] == G_sidx[4] + G_svcs[4].number_of_attributes)
+    && CNT_OK(0) && CNT_OK(1) && CNT_OK(2) && CNT_OK(3) && CNT_OK(4))
+__CPROVER_ensures(IT_OK(iterator) && __CPROVER_return_value == (USED(iterator) != 0))
+__CPROVER_assigns(iterator->current_, __CPROVER_object_whole(G_buf))
+{{asbg}}
+#define SETUP G_N = nondet_size(); G_ns = nondet_size(); G_room = nondet_size(); __CPROVER_assume(G_room <= BUF_MAX); BT_KNOWN_EXCLUDE()
+void h_cf_call(void) { SETUP; struct collect_find it; it.begin_ = G_buf; it.end_ = G_buf + G_room; size_t u = nondet_size(); __CPROVER_assume(u <= G_room); it.current_ = G_buf + u; struct attribute a; cf_call(&it, nondet_u16(), nondet_u16(), &a); BT_CANARY(); }
+void h_sbg_each(void) { SETUP; struct collect_find it; it.begin_ = G_buf; it.end_ = G_buf + G_room; size_t u = nondet_size(); __CPROVER_assume(u <= G_room); it.current_ = G_buf + u; bool found = nondet_bool(); struct value_filter flt;
+  struct sbg f; f.starting_index_ = nondet_size(); f.ending_handle_ = nondet_u16(); f.index_ = nondet_size(); f.iterator_ = &it; f.filter_ = &flt; f.found_ = &found; struct service s; s.number_of_attributes = nondet_size(); sbg_each(&f, &s); BT_CANARY(); }
+void h_for_each_service(void) { SETUP; struct collect_find it; it.begin_ = G_buf; it.end_ = G_buf + G_room; it.current_ = G_buf; bool found = 0; struct value_filter flt;
+  struct sbg f; f.starting_index_ = nondet_size(); f.ending_handle_ = nondet_u16(); f.index_ = 0; f.iterator_ = &it; f.filter_ = &flt; f.found_ = &found; for_each_service(&f); BT_CANARY(); }
+void h_all_services_by_group(void) { SETUP; struct collect_find it; it.begin_ = G_buf; it.end_ = G_buf + G_room; it.current_ = G_buf; struct value_filter flt; all_services_by_group(nondet_u16(), nondet_u16(), &it, &flt); BT_CANARY(); }
+'''
+IT_UNIT = dict(name='group_iteration', extracts=IT_EX, code=IT_CODE, object_bits=10, extra_loops=1,
+               enforce=['cf_call', 'sbg_each', 'for_each_service', 'all_services_by_group'], replace=['first_index_by_handle', 'cf_call', 'sbg_each', 'for_each_service'])
+
+# ------------------------------------------------------------------ the induction behind the summary of Read By Group Type: collect_primary_services::each (real body) in a loop over the symbolic list of services
+IT2_EX = dict(BITS_EXTRACTS, inv_index=_c03.EX['inv_index'], cps_each=_c03.EX['cps_each'], cps_ctor=_c03.EX['cps_ctor'])
+IT2_CODE = BITS_CODE + r'''
+#define invalid_attribute_index ((size_t)({{inv_index}}))
+#define GATT_PRIMARY_SERVICE 0x2800
+struct attribute { uint16_t uuid; int access_id; };
+#ifndef N_MAX
+#define N_MAX 16
+#endif
+#define S_MAX 5
+#define OUT_MAX 64
+size_t G_N; uint16_t G_H[N_MAX]; struct attribute G_attr[N_MAX];
+struct service { size_t number_of_attributes; bool is_128bit; };
+size_t G_ns; struct service G_svcs[S_MAX]; size_t G_sidx[S_MAX + 1];
+#define TABLE_OK (G_N >= 1 && G_N <= N_MAX)
+#define CNT_OK(i) (G_svcs[i].number_of_attributes >= 1 && G_svcs[i].number_of_attributes <= N_MAX && G_sidx[i] <= N_MAX)
+#define SVCS_OK (G_ns >= 1 && G_ns <= S_MAX && G_sidx[0] == 0 && G_sidx[G_ns] == G_N \
+    && G_sidx[1] == G_sidx[0] + G_svcs[0].number_of_attributes && (G_ns < 2 || G_sidx[2] == G_sidx[1] + G_svcs[1].number_of_attributes) && (G_ns < 3 || G_sidx[3] == G_sidx[2] + G_svcs[2].number_of_attributes) \
+    && (G_ns < 4 || G_sidx[4] == G_sidx[3] + G_svcs[3].number_of_attributes) && (G_ns < 5 || G_sidx[5] == G_sidx[4] + G_svcs[4].number_of_attributes) && CNT_OK(0) && CNT_OK(1) && CNT_OK(2) && CNT_OK(3) && CNT_OK(4))
+static inline const struct attribute* attribute_at(size_t i) { __CPROVER_assert(i < G_N, "attribute_at: index in range"); return &G_attr[i]; }
+static inline uint16_t handle_by_index(size_t i) { return i < G_N ? G_H[i] : 0; }
+/* the data base starts with its first attribute: the walk of collect_primary_services starts at first_index_by_handle( 1 ) == 0 (handles are >= 1, C04) */
+size_t first_index_by_handle(uint16_t handle) __CPROVER_ensures((handle <= 1 && __CPROVER_return_value == 0) || (handle > 1 && (__CPROVER_return_value == invalid_attribute_index || __CPROVER_return_value < G_N))) __CPROVER_assigns();
+/* the response buffer; G_base: where the entries start (behind opcode and entry size octet) */
+uint8_t G_out[OUT_MAX]; size_t G_oroom, G_base; uint8_t* G_cursor; uint8_t G_ads;
+#define ENTRY(is128) ((is128) ? (size_t)20 : (size_t)6)
+#define CUR_OFF __CPROVER_POINTER_OFFSET(G_cursor)
+/* one entry: written iff the service has the response's UUID size and the entry fits (contract of service<>::read_primary_service_response, proved against its real body in C03.py; restated relationally) */
+uint8_t* read_primary_service_response(const struct service* service, uint8_t* output, uint8_t* end, size_t starting_index, bool is_128bit_filter)
+__CPROVER_requires(G_oroom <= OUT_MAX && __CPROVER_same_object(output, G_out) && __CPROVER_POINTER_OFFSET(output) <= G_oroom && end == &G_out[0] + G_oroom && starting_index < G_N)
+__CPROVER_ensures(__CPROVER_same_object(__CPROVER_return_value, G_out) && __CPROVER_POINTER_OFFSET(__CPROVER_return_value) <= G_oroom
+    && (__CPROVER_POINTER_OFFSET(__CPROVER_return_value) == __CPROVER_POINTER_OFFSET(output) || __CPROVER_POINTER_OFFSET(__CPROVER_return_value) == __CPROVER_POINTER_OFFSET(output) + ENTRY(is_128bit_filter)))
+__CPROVER_assigns(__CPROVER_object_whole(G_out));
+struct cps { uint8_t** output_; uint8_t* end_; size_t index_; size_t starting_index_; uint16_t ending_handle_; bool stoped_; bool first_; bool is_128bit_uuid_; uint8_t* attribute_data_size_; int server_; };
+/* the state of the collection: nothing collected before the first service is taken; afterwards whole entries of one size, and that size stands in the octet in front of the entries */
+#define CPS_INV(c) (G_oroom <= OUT_MAX && G_base <= G_oroom && (c)->output_ == &G_cursor && (c)->attribute_data_size_ == &G_ads && (c)->end_ == &G_out[0] + G_oroom \
+    && __CPROVER_same_object(G_cursor, G_out) && CUR_OFF >= G_base && CUR_OFF <= G_oroom \
+    && ((c)->first_ ? CUR_OFF == G_base : ((CUR_OFF - G_base) % ENTRY((c)->is_128bit_uuid_) == 0 && G_ads == ENTRY((c)->is_128bit_uuid_))))
+void cps_each(struct cps* self, const struct service* service)
+__CPROVER_requires(TABLE_OK && __CPROVER_rw_ok(self, sizeof(struct cps)) && CPS_INV(self) && __CPROVER_r_ok(service, sizeof(*service)) && service->number_of_attributes >= 1 && self->index_ < G_N && self->index_ + service->number_of_attributes <= G_N)
+__CPROVER_ensures(self->index_ == __CPROVER_old(self->index_) + service->number_of_attributes && CPS_INV(self))
+__CPROVER_assigns(self->index_, self->first_, self->is_128bit_uuid_, self->stoped_, G_ads, G_cursor, __CPROVER_object_whole(G_out))
+{{cps_each}}
+void cps_ctor(struct cps* self, uint8_t** output, uint8_t* end, uint16_t starting_index, uint16_t starting_handle, uint16_t ending_handle, uint8_t* attribute_data_size, int server)
+{{cps_ctor}}
+/* details::for_< services >::each( collect_primary_services( begin, end, 1, start, end handle, entry size octet, server ) ): constructor (real), then each< Service >() (real) once per declared service in declaration order */
+void for_each_collect_primary_services(uint8_t* end, uint16_t starting_handle, uint16_t ending_handle)
+__CPROVER_requires(TABLE_OK && SVCS_OK && G_oroom <= OUT_MAX && G_base >= 1 && G_base <= G_oroom && __CPROVER_same_object(G_cursor, G_out) && CUR_OFF == G_base && end == &G_out[0] + G_oroom)
+/* SUMMARY: whole entries of one size within the buffer; if there is any, its size is in the octet in front */
+__CPROVER_ensures(__CPROVER_same_object(G_cursor, G_out) && CUR_OFF >= G_base && CUR_OFF <= G_oroom
+    && (CUR_OFF != G_base ==> ((G_ads == 6 || G_ads == 20) && (CUR_OFF - G_base) % G_ads == 0)))
+__CPROVER_assigns(G_ads, G_cursor, __CPROVER_object_whole(G_out))
+{
+    struct cps c;
+    cps_ctor( &c, &G_cursor, end, 1, starting_handle, ending_handle, &G_ads, 0 );
+    for ( size_t k = 0; k < G_ns; ++k )
+        __CPROVER_assigns(k, c.index_, c.first_, c.is_128bit_uuid_, c.stoped_, G_ads, G_cursor, __CPROVER_object_whole(G_out))
+        __CPROVER_loop_invariant(k <= G_ns && c.index_ == G_sidx[k] && CPS_INV(&c))
+        __CPROVER_decreases(G_ns - k)
+    {
+        cps_each( &c, &G_svcs[k] );
+    }
+}
+#define SETUP G_N = nondet_size(); G_ns = nondet_size(); G_oroom = nondet_size(); G_base = nondet_size(); __CPROVER_assume(G_oroom <= OUT_MAX && G_base <= G_oroom); BT_KNOWN_EXCLUDE()
+void h_cps_each(void) { SETUP; size_t u = nondet_size(); __CPROVER_assume(u <= G_oroom); G_cursor = G_out + u; struct cps c; c.output_ = &G_cursor; c.end_ = G_out + G_oroom; c.index_ = nondet_size(); c.starting_index_ = nondet_size(); c.ending_handle_ = nondet_u16();
+  c.stoped_ = nondet_bool(); c.first_ = nondet_bool(); c.is_128bit_uuid_ = nondet_bool(); c.attribute_data_size_ = &G_ads; struct service s; s.number_of_attributes = nondet_size(); s.is_128bit = nondet_bool(); cps_each(&c, &s); BT_CANARY(); }
+void h_for_each_collect_primary_services(void) { SETUP; G_cursor = G_out + G_base; for_each_collect_primary_services(G_out + G_oroom, nondet_u16(), nondet_u16()); BT_CANARY(); }
+'''
+IT2_UNIT = dict(name='group_iteration_rbgt', extracts=IT2_EX, code=IT2_CODE, object_bits=10, extra_loops=1,
+                enforce=['cps_each', 'for_each_collect_primary_services'], replace=['first_index_by_handle', 'read_primary_service_response', 'cps_each'])
